@@ -107,6 +107,14 @@ CHECKS["C19"] = dict(
     note="Trusted: exact scaled-integer specification in vfw/props/c19.py, VHDL-subset semantics, z3. Not covered: construction from Python floats. Known findings (resize between non-overlapping formats) are listed in known_findings.json.",
     technique="bounded symbolic translation validation (z3) against exact scaled-integer arithmetic",
 )
+CHECKS["C07"] = dict(
+    category="other",
+    text="(a) CrossHair executes the real usage check of ir.EntityTemplate.__init__ on IR built from symbolic placements of three writers (context index, object in {2 signals, input port, variable}, target part in {whole, bit, slice}); 36 conditions, each must be 'Confirmed over all paths': rejected <=> (input port written, or one root object written/used from two contexts). (b) placement programs through the whole compiler: two writer sites from {2 sequential, 2 concurrent contexts, sub-entity instance output} x target parts x {signal, output port, input port}, plus variable / temporary sharing and nested-function writers: conflict => must be rejected; no conflict => accepted and the emitted architecture passes the front end's one-driver-per-element rule.",
+    design_ref="DESIGN.md 3/C07",
+    note="(b) is enumeration + deterministic checker; (a) is the solver-based part (bounded: 3 writers, 3 contexts). Overlapping assignments inside ONE concurrent block are one context by definition and are not judged (resolution function).",
+    technique="CrossHair symbolic execution of the IR usage check + placement family with reject/accept oracle",
+    engine="E-PY",
+)
 NA = {}
 manifest = {
     "version": 1,
